@@ -311,7 +311,8 @@ func (n NodeTypeHasTag) marshalCedar(buf *bytes.Buffer) {
 func (n NodeTypeSet) marshalCedar(buf *bytes.Buffer) {
 	buf.WriteRune('[')
 	for i := range n.Elements {
-		marshalChildNode(n.precedenceLevel(), n.Elements[i], buf)
+		// like the rendering of a set value, an element at unary, call or access precedence needs no parentheses
+		marshalChildNode(unaryPrecedence, n.Elements[i], buf)
 		if i != len(n.Elements)-1 {
 			buf.WriteString(", ")
 		}
@@ -324,7 +325,7 @@ func (n NodeTypeRecord) marshalCedar(buf *bytes.Buffer) {
 	for i := range n.Elements {
 		buf.Write(n.Elements[i].Key.MarshalCedar())
 		buf.WriteString(":")
-		marshalChildNode(n.precedenceLevel(), n.NodeTypeRecord.Elements[i].Value, buf)
+		marshalChildNode(unaryPrecedence, n.NodeTypeRecord.Elements[i].Value, buf)
 		if i != len(n.Elements)-1 {
 			buf.WriteString(", ")
 		}
